@@ -613,8 +613,8 @@ class Layouter:
         elif name.startswith('_'):
             t = self.files[fid]['labels']
         else:
-            if name in self.isa.registers:
-                raise Reject('register used as a number')
+            if name.lower() in [r.lower() for r in self.isa.registers]:
+                raise Reject('register used as a number')       # in any letter case
             t = self.globals
         if name in t:
             return t[name]
